@@ -441,7 +441,7 @@ def run(tier, seed, replay=None):
         shutil.rmtree(tmp, ignore_errors=True)
 
     # ---------------------------------------------------------------- L1: file records vs the extracted encoder
-    corr_bad = None
+    corr_bad = C.Corr()
     lines = []
     for snap, r in l1[: (150 if tier == 'quick' else 100000)]:
         lines.append('g2_encode %s' % O.obj_tokens(snap))
@@ -456,10 +456,10 @@ def run(tier, seed, replay=None):
         want += r['cps']
         got = [[float(x) for x in row] for row in rows]
         ok = len(got) == len(want) and all(len(a) == len(b) and all(abs(x - y) <= 2e-15 * max(abs(x), abs(y)) for x, y in zip(a, b)) for a, b in zip(got, want))
-        if not ok and corr_bad is None:
-            corr_bad = {'what': 'L1: the G2 record differs from the model encoder', 'op': 'g2', 'args': dict(obj=O.spec_json(snap))}
+        if not ok and corr_bad.open():
+            corr_bad += {'what': 'L1: the G2 record differs from the model encoder', 'op': 'g2', 'args': dict(obj=O.spec_json(snap))}
     dist['op']['L1 comparisons'] = nl1
-    rc = V.finish(l0, corr_bad if not V.fail else None)
+    rc = V.finish(l0, corr_bad)
     C.write_evidence(PID, tier, seed, l0, {
         'evaluations': evals, 'distinct_nontrivial': len(nontriv),
         'rule': 'lists of 1-4 random objects (pardim 1-3, rational or not, periodic or not, magnitudes 1e-150..1e150) written to G2 and read back (kinds, orders, knots, control points to 16 '
